@@ -36,6 +36,11 @@ CHECKS = {
             "on the engine's observations under a virtual clock; firing-by-firing correspondence with the model",
             "Model/Timeout.lean transcribes hook.rs/do_tick; its comparison operator, multiplier, unit table and the open-task filter of do_tick are "
             "regenerated from the source. The production ticker and wall-clock time are not exercised.", "5 C19"),
+    "C20": ("Lean 4 K2 theorems by mutual structural induction over the whole workflow AST (the builder returns every declared element exactly once in "
+            "declaration order; it fails exactly when an id repeats; each catch/timeout list is registered under its own key) + K3 lemmas for deploy "
+            "versions and event registration; differential runs: serde JSON/YAML round trips, valid() and the complete node table (all links) against Tree.build",
+            "Tree.build is a hand transcription of build.rs/node_tree.rs tied by the node-by-node comparison of every link with the engine's tree on generated "
+            "models; serde derive and YAML are compared on the implementation, not modelled; generated (empty) ids are only counted.", "5 C20"),
 }
 
 NOT_YET = {}
